@@ -64,6 +64,10 @@ type Server struct {
 	BanList         BanMgr
 
 	MessageBoard io.ReadWriteSeeker
+
+	// TextMU serialises access to Agreement and MessageBoard: both keep a single read cursor, so a Seek followed by
+	// ReadAll (or a Write) must not interleave with another client's.
+	TextMU sync.Mutex
 }
 
 type Option = func(s *Server)
@@ -480,8 +484,10 @@ func (s *Server) handleNewConnection(ctx context.Context, rwc io.ReadWriteCloser
 			c.Server.outbox <- NewTransaction(TranShowAgreement, c.ID, NewField(FieldNoServerAgreement, []byte{1}))
 		}
 	} else {
+		c.Server.TextMU.Lock()
 		_, _ = c.Server.Agreement.Seek(0, 0)
 		data, _ := io.ReadAll(c.Server.Agreement)
+		c.Server.TextMU.Unlock()
 
 		c.Server.outbox <- NewTransaction(TranShowAgreement, c.ID, NewField(FieldData, data))
 	}
